@@ -378,3 +378,44 @@ def _only_allowed(r):
     # "axioms: name : type name2 : type" ; accept only if every axiom name is in the allowed list
     names = re.findall(r'([A-Za-z_][\w\.]*)\s*:', r[len('axioms:'):])
     return all(any(n.endswith(a) or a.endswith(n) for a in ALLOWED_AXIOMS) for n in names if n[0].islower() or '.' in n)
+
+
+def coq_bad_cases(prefix, imports, defs, typ, case_texts, evalfun, shard=500, workers=8, timeout=900):
+    """Evaluate `evalfun cases` (a Coq function returning the list of indices of bad cases) on
+    `case_texts` (Coq terms of type `typ`), sharded over several coqc processes.
+    Returns (sorted global bad indices, None) or (None, error text)."""
+    from concurrent.futures import ThreadPoolExecutor
+    chunks = [case_texts[i:i + shard] for i in range(0, len(case_texts), shard)]
+
+    def do(ix):
+        lines = ['From Coq Require Import ZArith List Bool.', 'Import ListNotations.'] + imports + \
+                ['Local Open Scope Z_scope.'] + defs + \
+                ['Definition cases : list (%s) := [\n%s].' % (typ, ';\n'.join(chunks[ix])),
+                 'Eval vm_compute in %s cases.' % evalfun]
+        rc, out = coqc_text('%s_%d' % (prefix, ix), '\n'.join(lines) + '\n', timeout=timeout)
+        return ix, rc, out
+    bad = []
+    with ThreadPoolExecutor(max_workers=workers) as ex:
+        for ix, rc, out in ex.map(do, range(len(chunks))):
+            b = parse_coq_list_of_nat(out) if rc == 0 else None
+            if b is None:
+                return None, out[-1500:]
+            bad += [ix * shard + k for k in b]
+    return sorted(bad), None
+
+
+def correspondence(ctx, name, prefix, imports, defs, typ, cases, render, evalfun, shard=500, max_report=4):
+    """Run a model-vs-implementation comparison inside Coq; record results in ctx."""
+    texts = [render(c) for c in cases]
+    bad, err = coq_bad_cases(prefix, imports, defs, typ, texts, evalfun, shard=shard)
+    if bad is None:
+        ctx.broken.append({'name': 'correspondence:' + name, 'summary': 'model evaluation failed: ' + err})
+        ctx.cov['correspondences'][name] = {'cases': len(cases), 'disagreements': 'evaluation failed'}
+        return None
+    ctx.cov['traces_validated_against_impl'] += len(cases) - len(bad)
+    ctx.cov['correspondences'][name] = {'cases': len(cases), 'disagreements': len(bad)}
+    for b in bad[:max_report]:
+        ctx.broken.append({'name': 'correspondence:' + name,
+                           'summary': 'model and implementation disagree (%d of %d cases)' % (len(bad), len(cases)),
+                           'case': cases[b], 'coq_case': texts[b]})
+    return bad
